@@ -299,3 +299,120 @@ def selftest():
         return "native stand-ins build against /repo's headers"
     except Exception as ex:
         return "FAIL " + str(ex)[:500]
+
+
+# ------------------------------------------------------------------------------------------------ union-find passes
+def uf_units():
+    U = []
+    # ds_find_set_ (path halving), forest of at most 8 nodes (bounded)
+    con = """
+__CPROVER_requires(g_n >= 1 && g_n <= NV && v < g_n && forest_ok(P_, g_n))
+__CPROVER_requires(g_q < g_n && g_r0 == root_of(P_, g_q) && g_rv == root_of(P_, v))
+__CPROVER_ensures(__CPROVER_return_value == g_rv && P_[__CPROVER_return_value] == __CPROVER_return_value)
+__CPROVER_ensures(root_of(P_, g_q) == g_r0)
+__CPROVER_ensures(P_[g_q] < g_n)
+__CPROVER_assigns(P_)
+"""
+    G = '#include "c14b_glue.h"\nIndex P_[NV]; Index g_n, g_q, g_r0, g_rv;\n#define ds_parent(i) (P_[(i)])\nsize_t nondet_size(void); unsigned nondet_uint(void);\n'
+    fn = Fn(R, r"Index ds_find_set_\(Index v, Parent&&ds_parent\)", "ds_find_set_", con,
+            sig_subs=[(r", Parent&&ds_parent", "")], canary=(r"v = grandparent;", "v = parent; ds_parent(v) = v;"))
+    U.append(Unit("rect.ds_find_set", "C14", [fn], enforce="ds_find_set_", globals_=G, unwind=NVW + 2, route="B", defines=["NV=5"],
+                  bound="forests with at most 5 nodes (any shape, any start node)", inputs=["in_v", "g_n", "P_"],
+                  harness=H("  Index in_v = nondet_size(); g_n = nondet_size(); g_q = nondet_size();\n"
+                            "  for (int i = 0; i < NV; i++) { P_[i] = nondet_size(); g_depth[i] = nondet_uint(); }\n"
+                            "  __CPROVER_assume(g_n >= 1 && g_n <= NV && g_q < g_n && in_v < g_n && forest_ok(P_, g_n));\n"
+                            "  g_r0 = root_of(P_, g_q); g_rv = root_of(P_, in_v);", "ds_find_set_(in_v);"),
+                  runs=[Run(backend="kissat", timeout=600)],
+                  desc="ds_find_set_ (path halving): returns the root of v; every node keeps its root (the partition is unchanged); parents stay in range"))
+    # abstract contract of ds_find_set_vertex/square used by the passes: the root function (ghost table); parents
+    # may change but roots do not (proved above for <= 8 nodes)
+    for mode, defs in (("values", []), ("indices", ["OUTPUT_INDEX"])):
+        GP = '#include "c14b_glue.h"\nIndex g_rootv[NV]; Index g_roots[NV];\nsize_t nondet_size(void); int nondet_int(void);\n'
+        find_v = """
+static Index ds_find_set_vertex(Index v)
+__CPROVER_requires(v < NV)
+__CPROVER_ensures(__CPROVER_return_value == g_rootv[v])
+__CPROVER_assigns()
+{ return g_rootv[v]; }
+static Index ds_find_set_square(Index v)
+__CPROVER_requires(v < NV)
+__CPROVER_ensures(__CPROVER_return_value == g_roots[v])
+__CPROVER_assigns()
+{ return g_roots[v]; }
+"""
+        con_p = """
+__CPROVER_requires(e->v1 < e->v2 && e->v2 < NV && g_out_n == 0 && g_rootv[e->v1] < NV && g_rootv[e->v2] < NV)
+__CPROVER_ensures(__CPROVER_return_value == (g_rootv[e->v1] != g_rootv[e->v2]))
+__CPROVER_ensures(g_out_n == (__CPROVER_return_value ? 1u : 0u))
+__CPROVER_ensures(!__CPROVER_return_value || elder_rule_ok(g_rootv[e->v1], g_rootv[e->v2], T_OUT(e->f)))
+__CPROVER_assigns(ds_parent_v_, g_out_b, g_out_d, g_out_n)
+"""
+        spec_p = """
+/* elder rule: of the two roots the younger one (larger (value[, index])) is attached under the elder, nothing else
+ * is re-parented, and (birth of the younger, value of the edge) is emitted */
+Index g_pv0[NV];
+static bool elder_rule_ok(Index ra, Index rb, long edge_val) {
+  Index young = T_LESS(data_v_[rb], data_v_[ra]) ? ra : rb, old = young == ra ? rb : ra;
+  bool ok = ds_parent_v_[young] == old && g_out_b == T_OUT(data_v_[young]) && g_out_d == edge_val;
+  for (Index i = 0; i < NV; i++) if (i != young) ok = ok && ds_parent_v_[i] == g_pv0[i];
+  return ok;
+}
+"""
+        fn_p = Fn(R, r"void primal\(Out&&out\)", "primal_body", con_p,
+                  piece={"kind": "slice", "first": r"assert\(e\.v1 < e\.v2\);", "last": r"return true;", "sig": "bool primal_body(struct Edge* e)", "byref": ["e"]},
+                  subs=[(r"std::swap\(a, b\)", "VP_SWAP_I(a, b)"), (r"data_vertex\(b\) < data_vertex\(a\)", "T_LESS(data_vertex(b), data_vertex(a))"),
+                        (r"data_vertex\(b\)\.out\(\)", "T_OUT(data_vertex(b))"), (r"\(\*e\)\.f\.out\(\)", "T_OUT((*e).f)")],
+                  canary=(r"T_LESS\(data_vertex\(b\), data_vertex\(a\)\)", "T_LESS(data_vertex(a), data_vertex(b))"))
+        U.append(Unit(f"rect.primal_body.{mode}", "C14", [GP_FIND := find_v, spec_p, fn_p], enforce="primal_body", globals_=GP, defines=defs, unwind=NVW + 2,
+                      inputs=["in_e", "g_rootv", "data_v_"],
+                      harness=H("  struct Edge in_e; in_e.v1 = nondet_size(); in_e.v2 = nondet_size(); in_e.f.first = nondet_int();\n"
+                                "  for (int i = 0; i < NV; i++) { g_rootv[i] = nondet_size(); ds_parent_v_[i] = nondet_size(); g_pv0[i] = ds_parent_v_[i]; data_v_[i].first = nondet_int(); }\n"
+                                "  g_out_n = 0;", "primal_body(&in_e);"),
+                      desc=f"primal pass, one edge ({mode} mode): if its end points lie in different components the younger root is attached under the elder and (its birth, the edge value) is emitted exactly once; otherwise nothing happens"))
+        con_d = """
+__CPROVER_requires(e.v1 < e.v2 && e.v1 + (dy + 1) < NV && e.v2 < NV && dy < NV && g_out_n == 0)
+__CPROVER_requires(g_roots[e.v2] < NV && g_roots[e.v1 + (dy + 1)] < NV && g_roots[e.v2] != g_roots[e.v1 + (dy + 1)])
+__CPROVER_ensures(g_out_n == 1 && dual_rule_ok(g_roots[e.v2], g_roots[e.v1 + (dy + 1)], T_OUT(e.f)))
+__CPROVER_assigns(ds_parent_s_, g_out_b, g_out_d, g_out_n)
+"""
+        spec_d = """
+/* dual elder rule (squares as vertices, values reversed, the exterior cell 0 is the eldest): of the two roots the
+ * one that is NOT the exterior and has the smaller input value is attached under the other; (edge value, that
+ * root['s value]) is emitted */
+Index g_ps0[NV];
+static bool dual_rule_ok(Index ra, Index rb, long edge_val) {
+  /* b (the one that dies) must not be the exterior cell 0; between two interior roots the one with the smaller value dies */
+  Index dies, lives;
+  if (ra == 0) { dies = rb; lives = ra; } else if (rb == 0) { dies = ra; lives = rb; }
+  else if (g_input[ra] < g_input[rb]) { dies = ra; lives = rb; } else { dies = rb; lives = ra; }
+  bool ok = ds_parent_s_[dies] == lives && g_out_b == edge_val;
+#ifdef OUTPUT_INDEX
+  ok = ok && g_out_d == (long)dies;
+#else
+  ok = ok && g_out_d == (long)g_input[dies];
+#endif
+  for (Index i = 0; i < NV; i++) if (i != dies) ok = ok && ds_parent_s_[i] == g_ps0[i];
+  return ok;
+}
+"""
+        dual_e = Fn(R, r"void dualize_edge\(Edge& e\) const", "dualize_edge", "", sig_subs=[(r"Edge&", "struct Edge&")])
+        fn_d = Fn(R, r"void dual\(Out&&out\)", "dual_body", con_d,
+                  piece={"kind": "loop", "ordinal": 0, "sig": "void dual_body(struct Edge e)"},
+                  constexpr=[(r"output_index", mode == "indices")],
+                  subs=[(r"std::swap\(a, b\)", "VP_SWAP_I(a, b)"), (r"dualize_edge\(e\)", "dualize_edge(&e)"), (r"e\.f\.out\(\)", "T_OUT(e.f)")],
+                  canary=(r"input\(a\) < input\(b\)", "input(b) < input(a)"))
+        U.append(Unit(f"rect.dual_body.{mode}", "C14", [find_v, spec_d, dual_e, fn_d], enforce="dual_body", globals_=GP, defines=defs, unwind=NVW + 2,
+                      inputs=["in_e", "g_roots", "g_input", "dy"],
+                      harness=H("  struct Edge in_e; in_e.v1 = nondet_size(); in_e.v2 = nondet_size(); in_e.f.first = nondet_int(); dy = nondet_size();\n"
+                                "  for (int i = 0; i < NV; i++) { g_roots[i] = nondet_size(); ds_parent_s_[i] = nondet_size(); g_ps0[i] = ds_parent_s_[i]; g_input[i] = nondet_int(); }\n"
+                                "  g_out_n = 0;", "dual_body(in_e);"),
+                      desc=f"dual pass, one edge ({mode} mode): the two squares across the edge lie in different components (GUDHI_CHECK); the root that is not the exterior and has the smaller value is attached under the other and (edge value, its value) is emitted exactly once"))
+    return U
+
+
+NVW = 8
+_units_local = units
+
+
+def units(tier):   # noqa: F811
+    return _units_local(tier) + uf_units()
